@@ -188,6 +188,18 @@ func (r *Report) finish(verifDir string, evidencePath string, verbose bool) int 
 	pick(func(o *Oblig) bool { return o.Verdict == Discharged && o.NonTrivial }, 10)
 	pick(func(o *Oblig) bool { return o.Verdict == Discharged && !o.NonTrivial }, 4)
 
+	if r.Assumptions == nil {
+		r.Assumptions = []string{}
+	}
+	if r.Trusted == nil {
+		r.Trusted = []string{}
+	}
+	if r.Notes == nil {
+		r.Notes = []string{}
+	}
+	if samples == nil {
+		samples = []interface{}{}
+	}
 	perRule := map[string]int{}
 	for _, o := range r.Obligs {
 		perRule[o.Rule]++
